@@ -11,11 +11,19 @@ import (
 	"time"
 
 	"verif/harness/choice"
+	"verif/harness/simsched"
 	"verif/harness/wproto"
 )
 
 func runOne(t *testing.T, c *Case, work, sched *choice.Source, out *wproto.Out, id int) {
 	out.Begin(id)
+	out.OnStuck = func() {
+		c.Work, c.Sched = work.Tape(), sched.Tape()
+		out.Finding(id, "livelock|never-returned", "livelock", "the run exceeded its scheduler step budget and, left to run freely, still had not returned three seconds later: an endless loop", c)
+		out.End(id, []string{"livelock|never-returned"})
+		out.Count("evaluations", 1)
+		out.Finish("restart", id+1)
+	}
 	st := &Stats{}
 	fs := RunCase(t, c, work, sched, st)
 	var sigs []string
@@ -82,6 +90,7 @@ func TestWorker(t *testing.T) {
 	if err != nil {
 		t.Fatal(err)
 	}
+	out.StuckFlag = &simsched.Stuck
 	kinds := job.KindList(Algos)
 	mk := func(i int) (*Case, *choice.Source, *choice.Source) {
 		c := &Case{Property: "C12", Engine: "simsched", Algo: kinds[i%len(kinds)]}
